@@ -1,7 +1,7 @@
 """C17 — remote read/write lock: exclusion, latest-committed reads, no deadlock."""
 import mir
 from mir import callee
-from common import controlling_edges, switch_expr, switch_meaning, const_value
+from common import *  # noqa: F401,F403
 
 EXPLANATION = (
     "Static MIR rules over robj/rw_lock: R17.1 no hold-and-wait on the owner: in ReadLock::fetch every path from the "
@@ -101,7 +101,7 @@ def r17_2(ck, F):
     ck.expect(bool(recvs) and all(b.dominates(a["yield_bb"], hand) or b.dominates(a["poll_bb"], hand) for a in recvs[:1]),
               "owner_task#wait-dominates-handout", "the drop-confirmation wait dominates the hand-out",
               "the hand-out does not wait for the drop confirmations", b.loc(hand))
-    ce = [(switch_expr(b, s), switch_meaning(b, s, v)) for s, tb, v in controlling_edges(b, hand)]
+    ce = conds(b, hand)
     none_exit = any(e[0] == "discr" and mir.calls_in(e, "rch::mpsc::receiver::Receiver::recv") and m == "None" for e, m in ce)
     ok_exit = any(e[0] == "discr" and mir.calls_in(e, "rch::mpsc::receiver::Receiver::recv") and m == "Ok" for e, m in ce)
     ck.expect(none_exit and ok_exit, "owner_task#loop-exit-on-Ok(None)",
@@ -131,7 +131,7 @@ def r17_3(ck, F):
     if not stores:
         raise mir.AnchorMissing("store to *value in owner_task")
     for bb, i in stores:
-        ce = [(switch_expr(b, s), switch_meaning(b, s, v)) for s, tb, v in controlling_edges(b, bb)]
+        ce = conds(b, bb)
         ok = any(e[0] == "discr" and "new_value_rx" in mir.show(e) and m == "Ok" for e, m in ce)
         ck.expect(ok, "owner_task#store-on-Ok", "value overwritten only when the writer sent a new value",
                   "the shared value can be overwritten without a committed new value", b.loc(bb, i))
